@@ -191,6 +191,11 @@ class SimSolver:
                     break          # model set exhausted: answer with the last model found
                 r = r2
             return fmt(r)
+        if kind == "extra":
+            # a peer that looks for a model with an extra property (used to search for models that break an
+            # ordering constraint of the specification); unsat means no such model exists
+            cur = strip_soft(text).replace("(check-sat)", entry["assert"] + "\n(check-sat)", 1)
+            return fmt(z3_run(cur, seed=entry.get("seed", 0)))
         if kind == "no_model":
             if oms:
                 return "unknown\n(error \"model generation not enabled\")\n"
